@@ -553,6 +553,35 @@ func registerReflectModel(e *Engine) {
 		st.rpanic("reflect: call of reflect.Value.Elem on %s Value", rkNames[v.Kind])
 		return nil
 	})
+	// channel operations of reflect.Value: the non-blocking ones answer
+	// nondeterministically (ready or not); the blocking ones are recorded.
+	vm("TryRecv", func(st *State, v *RVal, a []Value) Value {
+		if st.Branch(st.FreshTerm("chan_ready", SBool, 0)) {
+			var et types.Type = types.Typ[types.Bool]
+			if v.Typ != nil && v.Typ.GoType != nil {
+				if ct, ok := v.Typ.GoType.Underlying().(*types.Chan); ok {
+					et = ct.Elem()
+				}
+			}
+			rt := st.E.rtypeOfGo(et)
+			return TupleV{&RVal{Kind: rt.Kind, Typ: rt, Val: st.FreshValue("recv", et)}, TrueT}
+		}
+		return TupleV{&RVal{}, FalseT}
+	})
+	vm("TrySend", func(st *State, v *RVal, a []Value) Value {
+		return st.FreshTerm("chan_ready", SBool, 0)
+	})
+	vm("Recv", func(st *State, v *RVal, a []Value) Value {
+		st.events = append(st.events, Event{Tag: "blocking:Recv"})
+		return TupleV{&RVal{}, FalseT}
+	})
+	vm("Send", func(st *State, v *RVal, a []Value) Value {
+		st.events = append(st.events, Event{Tag: "blocking:Send"})
+		return nil
+	})
+	vm("Len", func(st *State, v *RVal, a []Value) Value {
+		return st.E.intTerm(big.NewInt(0), types.Typ[types.Int])
+	})
 	vm("Addr", func(st *State, v *RVal, a []Value) Value {
 		if v.Ref == nil {
 			st.rpanic("reflect.Value.Addr of unaddressable value")
